@@ -745,7 +745,7 @@ func TestC14(t *testing.T) {
 	r := gen.New(seed)
 	if thorough {
 		randomSeq(r.Fork(), 60000)
-		randomConc(r.Fork(), 300, 400)
+		randomConc(r.Fork(), 150, 250)
 	} else {
 		randomSeq(r.Fork(), 6000)
 		randomConc(r.Fork(), 40, 200)
